@@ -372,3 +372,324 @@ Proof.
   destruct (exec_zsets 0 d name parts oracle) as [[rp d']|] eqn:E; [|auto].
   apply IH; [|exact Fr]. eapply exec_zsets_zok; eauto.
 Qed.
+
+(** ---- reads against the specification ---- *)
+Lemma with_zset_zget {A} d key (dflt : A) f z :
+  zget d key = Some z -> dflt = f (z2sl []) -> with_zset d key dflt f = Some (f (z2sl z)).
+Proof.
+  unfold zget, with_zset. destruct (get_entry d key) as [e|].
+  - destruct (e_val e); try discriminate. intros H _. inversion H. reflexivity.
+  - intros H ->. inversion H. reflexivity.
+Qed.
+Lemma z2sl_length z : sl_length (z2sl z) = len (sl_nodes (z2sl z)).
+Proof. cbn [z2sl sl_length sl_nodes]. unfold len. rewrite map_length. reflexivity. Qed.
+Lemma z2sl_items z : sl_items (z2sl z) = z.
+Proof. apply sl_of_items_items. Qed.
+
+Theorem eng_zrange_spec d key z start stop :
+  zget d key = Some z -> kf_zrange_fwd (len z) start stop = false ->
+  eng_zrange d key start stop false = Some (redis_slice z start stop).
+Proof.
+  intros G K. unfold eng_zrange. rewrite (with_zset_zget d key [] _ z G) by reflexivity.
+  f_equal. rewrite <- (z2sl_items z) at 2. apply zrange_fwd_redis; [apply z2sl_length|exact K].
+Qed.
+Theorem eng_zrevrange_spec d key z start stop :
+  zget d key = Some z -> kf_zrange_rev (len z) start stop = false ->
+  eng_zrange d key start stop true = Some (redis_slice (rev z) start stop).
+Proof.
+  intros G K. unfold eng_zrange. rewrite (with_zset_zget d key [] _ z G) by reflexivity.
+  f_equal. rewrite <- (z2sl_items z) at 2. apply zrange_rev_redis; [apply z2sl_length|exact K].
+Qed.
+
+Lemma redis_slice_all {A} (l : list A) : redis_slice l 0 (-1) = l.
+Proof.
+  unfold redis_slice, redis_range. pose proof (len_nonneg l). destruct l as [|x l']; [reflexivity|].
+  set (l := x :: l') in *. assert (0 < len l) by (unfold l, len; cbn; lia).
+  brk; try lia. cbn [Z.to_nat skipn].
+  replace (Z.to_nat (Z.min (-1 + len l) (len l - 1) - Z.max 0 0 + 1)) with (length l) by (unfold len in *; lia).
+  apply firstn_all.
+Qed.
+Lemma eng_zrange_all d key z : zget d key = Some z -> eng_zrange d key 0 (-1) false = Some z.
+Proof.
+  intro G. destruct z as [|x z'].
+  - unfold eng_zrange. rewrite (with_zset_zget d key [] _ [] G) by reflexivity. reflexivity.
+  - rewrite (eng_zrange_spec d key (x :: z') 0 (-1) G).
+    + rewrite redis_slice_all. reflexivity.
+    + unfold kf_zrange_fwd. assert (0 < len (x :: z')) by (unfold len; cbn; lia). brk; try reflexivity; lia.
+Qed.
+
+Theorem eng_zrank_spec d key z m : db_zok d -> zget d key = Some z ->
+  eng_zrank d key m false = Some (zs_rank m z) /\
+  eng_zrank d key m true = Some (option_map (fun r => len z - 1 - r) (zs_rank m z)).
+Proof.
+  intros D G. pose proof (zs_ok_inv z (zget_some d key z G D)) as I. rewrite <- z2sl_eq in I.
+  unfold eng_zrank. rewrite !(with_zset_zget d key None _ z G) by reflexivity.
+  rewrite (sl_get_rank_spec _ m I), z2sl_items. unfold sl_len. cbn [z2sl sl_length].
+  destruct (zs_rank m z); split; reflexivity.
+Qed.
+
+(** rank and range agree: ZRANK m = i iff m is the i-th member of ZRANGE 0 -1 *)
+Theorem zrank_zrange_agree d key z m i : db_zok d -> zget d key = Some z ->
+  (eng_zrank d key m false = Some (Some i) <->
+   0 <= i /\ exists l, eng_zrange d key 0 (-1) false = Some l /\ nth_error (map fst l) (Z.to_nat i) = Some m).
+Proof.
+  intros D G. destruct (eng_zrank_spec d key z m D G) as [E _]. rewrite E, (eng_zrange_all d key z G).
+  destruct (zget_some d key z G D) as (_ & N & _).
+  pose proof (zs_rank_nth z m i N) as R. split.
+  - intro H. inversion H as [H']. apply R in H'. destruct H' as [H0 Hn]. split; [exact H0|]. eexists; split; [reflexivity|exact Hn].
+  - intros [H0 (l & El & Hn)]. inversion El. subst l. f_equal. apply R. auto.
+Qed.
+
+Theorem eng_zscore_spec d key z m : zget d key = Some z -> eng_zscore d key m = Some (zs_lookup m z).
+Proof.
+  intro G. unfold eng_zscore. rewrite (with_zset_zget d key None _ z G) by reflexivity.
+  unfold sl_get_score. cbn [z2sl sl_index]. rewrite alookup_zs_lookup. reflexivity.
+Qed.
+Theorem eng_zcard_spec d key z : zget d key = Some z -> eng_zcard d key = Some (len z).
+Proof. intro G. unfold eng_zcard. rewrite (with_zset_zget d key 0 _ z G) by reflexivity. reflexivity. Qed.
+
+Theorem eng_zrangebyscore_spec d key z mn mx : db_zok d -> zget d key = Some z -> f_is_nan mn = false ->
+  eng_zrangebyscore d key mn mx false = Some (zs_byscore mn mx z) /\
+  eng_zrangebyscore d key mn mx true = Some (rev (zs_byscore mn mx z)) /\
+  eng_zcount d key mn mx = Some (len (zs_byscore mn mx z)).
+Proof.
+  intros D G Hmn. pose proof (zs_ok_inv z (zget_some d key z G D)) as I. rewrite <- z2sl_eq in I.
+  pose proof (sl_range_by_score_spec _ mn mx I Hmn) as S. rewrite z2sl_items in S.
+  unfold eng_zcount, eng_zrangebyscore. rewrite !(with_zset_zget d key [] _ z G) by reflexivity.
+  rewrite nodes_kv_eq, S. repeat split.
+Qed.
+
+(** ---- failure atomicity ---- *)
+Lemma zrem_members_noerr key : forall ms d removed z, db_zok d -> zget d key = Some z ->
+  exists n, fst (zrem_members d key ms removed) = r_int n.
+Proof.
+  induction ms as [|f ms IH]; intros d removed z D G; cbn [zrem_members fst]; [eexists; reflexivity|].
+  destruct f; try (eapply IH; eauto).
+  pose proof (eng_zrem_spec d key b D) as S. rewrite G in S. destruct S as (d' & E & G' & _ & _ & D').
+  rewrite E. eapply IH; eauto.
+Qed.
+Lemma zrem_members_wrongtype key : forall ms d removed, zget d key = None ->
+  snd (zrem_members d key ms removed) = d.
+Proof.
+  induction ms as [|f ms IH]; intros d removed G; cbn [zrem_members snd]; [reflexivity|].
+  destruct f; try (apply IH; exact G).
+  assert (eng_zrem d key b = None) as ->; [|reflexivity].
+  unfold zget in G. unfold eng_zrem. destruct (get_entry d key) as [e|]; [|discriminate].
+  destruct (e_val e); try reflexivity. discriminate.
+Qed.
+
+Lemma zpop_loop_some key idx : forall fuel d acc z, db_zok d -> zget d key = Some z ->
+  zpop_loop fuel d key idx acc <> None.
+Proof.
+  induction fuel as [|fuel IH]; intros d acc z D G; cbn [zpop_loop]; [discriminate|].
+  unfold eng_zrange at 1. rewrite (with_zset_zget d key [] _ z G) by reflexivity.
+  destruct (zrange_of (z2sl z) idx idx false) as [|[m sc] t]; [discriminate|].
+  pose proof (eng_zrem_spec d key m D) as S. rewrite G in S. destruct S as (d' & E & G' & _ & _ & D').
+  rewrite E. destruct (negb (is_none (zs_lookup m z))); eapply IH; eauto.
+Qed.
+Lemma zpop_wrongtype key idx fuel d acc : zget d key = None -> fuel <> O -> zpop_loop fuel d key idx acc = None.
+Proof.
+  intros G F. destruct fuel; [congruence|]. cbn [zpop_loop].
+  assert (eng_zrange d key idx idx false = None) as ->; [|reflexivity].
+  unfold zget in G. unfold eng_zrange, with_zset. destruct (get_entry d key) as [e|]; [|discriminate].
+  destruct (e_val e); try reflexivity. discriminate.
+Qed.
+
+(** an error reply leaves the database unchanged - for every command except a
+    multi-pair ZADD (class zadd-partial) *)
+Theorem exec_zsets_failure_atomic now d name parts oracle r d' :
+  db_zok d -> (beq name (bs "ZADD") = true -> nparts parts = 4) ->
+  exec_zsets now d name parts oracle = Some (r, d') -> is_error r = true -> d' = d.
+Proof.
+  intros D A. unfold exec_zsets.
+  destruct (beq name (bs "ZADD")) eqn:NA.
+  { (* single-pair ZADD *)
+    specialize (A eq_refl). intro H. inversion H as [H']. clear H. unfold h_zadd in H'. rewrite A in H'.
+    cbn [Z.ltb Z.compare Pos.compare Pos.compare_cont orb negb] in H'.
+    change ((4 mod 2 =? 0)) with true in H'. cbn [negb] in H'.
+    destruct (nth_error parts 1) as [[]|]; try (inversion H'; subst; reflexivity).
+    assert (L : length parts = 4%nat) by (unfold nparts, len in A; lia).
+    destruct parts as [|p0 [|p1 [|p2 [|p3 [|p4 ps]]]]]; cbn in L; try lia.
+    cbn [skipn zadd_pairs] in H'.
+    destruct (float_arg _ oracle 2) as [score|]; [|inversion H'; subst; reflexivity].
+    destruct p3; try (inversion H'; subst; reflexivity).
+    destruct (nan_refused && f_is_nan score); [inversion H'; subst; reflexivity|].
+    destruct (eng_zadd d b b0 score) as [[isn d1]|]; inversion H'; subst; [discriminate|reflexivity]. }
+  clear A.
+  destruct (beq name (bs "ZREM")).
+  { intro H. inversion H as [H']. clear H. unfold h_zrem in H'.
+    destruct (nparts parts <? 3); [inversion H'; subst; reflexivity|].
+    destruct (nth_error parts 1) as [[]|]; try (inversion H'; subst; reflexivity).
+    destruct (zget d b) as [z|] eqn:G.
+    - destruct (zrem_members_noerr b (skipn 2 parts) d 0 z D G) as [n En]. rewrite H' in En. cbn [fst] in En.
+      subst r. discriminate.
+    - pose proof (zrem_members_wrongtype b (skipn 2 parts) d 0 G) as E. rewrite H' in E. intros _. exact E. }
+  repeat match goal with |- context [if beq name ?c then _ else _] => destruct (beq name c) end;
+  try discriminate; intro H; inversion H as [H']; clear H.
+  - assert (snd (h_zscore d parts) = d) as E by (unfold h_zscore; ro). rewrite H' in E. intros _. exact E.
+  - assert (snd (h_zcard d parts) = d) as E by (unfold h_zcard; ro). rewrite H' in E. intros _. exact E.
+  - assert (snd (h_zrank false d parts) = d) as E by (unfold h_zrank; ro). rewrite H' in E. intros _. exact E.
+  - assert (snd (h_zrank true d parts) = d) as E by (unfold h_zrank; ro). rewrite H' in E. intros _. exact E.
+  - assert (snd (h_zrange false d parts) = d) as E by (unfold h_zrange; ro). rewrite H' in E. intros _. exact E.
+  - assert (snd (h_zrange true d parts) = d) as E by (unfold h_zrange; ro). rewrite H' in E. intros _. exact E.
+  - assert (snd (h_zrangebyscore false d parts oracle) = d) as E by (unfold h_zrangebyscore; ro). rewrite H' in E. intros _. exact E.
+  - assert (snd (h_zrangebyscore true d parts oracle) = d) as E by (unfold h_zrangebyscore; ro). rewrite H' in E. intros _. exact E.
+  - assert (snd (h_zcount d parts oracle) = d) as E by (unfold h_zcount; ro). rewrite H' in E. intros _. exact E.
+  - (* ZINCRBY *) unfold h_zincrby in H'.
+    destruct (negb (nparts parts =? 4)); [inversion H'; subst; reflexivity|].
+    destruct (nth_arg parts 1) as [key|]; [|inversion H'; subst; reflexivity].
+    destruct (float_arg parts oracle 2) as [inc|]; [|inversion H'; subst; reflexivity].
+    destruct (nth_arg parts 3) as [m|]; [|inversion H'; subst; reflexivity].
+    destruct (nan_refused && f_is_nan inc); [inversion H'; subst; reflexivity|].
+    destruct (eng_zincrby d key m inc (oscore oracle 4)) as [[[v|] d1]|] eqn:E; [| |inversion H'; subst; reflexivity].
+    + destruct (nan_refused && f_is_nan v); inversion H'; subst; [reflexivity|discriminate].
+    + inversion H'; subst. intros _. revert E. unfold eng_zincrby.
+      destruct (get_entry d key) as [e|].
+      * destruct (e_val e) as [?|?|?|?|zz|?]; try discriminate.
+        destruct (match sl_get_score (z2sl zz) m with Some _ => oscore oracle 4 | None => Some inc end) as [nv|].
+        -- destruct (sl_insert (z2sl zz) m nv 0). discriminate.
+        -- intro E. inversion E. reflexivity.
+      * destruct (sl_insert sl_new m inc 0). discriminate.
+  - (* ZPOPMIN *) unfold h_zpop in H'.
+    destruct ((nparts parts <? 2) || (3 <? nparts parts)); [inversion H'; subst; reflexivity|].
+    destruct (nth_arg parts 1) as [key|]; [|inversion H'; subst; reflexivity].
+    destruct (if nparts parts =? 3 then match nth_arg parts 2 with Some c => parse_usize c | None => None end else Some 1) as [n|];
+      [|inversion H'; subst; reflexivity].
+    destruct (zpop_loop _ d key 0 []) as [[[|x l] d1]|] eqn:E; inversion H'; subst; try discriminate; reflexivity.
+  - (* ZPOPMAX *) unfold h_zpop in H'.
+    destruct ((nparts parts <? 2) || (3 <? nparts parts)); [inversion H'; subst; reflexivity|].
+    destruct (nth_arg parts 1) as [key|]; [|inversion H'; subst; reflexivity].
+    destruct (if nparts parts =? 3 then match nth_arg parts 2 with Some c => parse_usize c | None => None end else Some 1) as [n|];
+      [|inversion H'; subst; reflexivity].
+    destruct (zpop_loop _ d key (-1) []) as [[[|x l] d1]|] eqn:E; inversion H'; subst; try discriminate; reflexivity.
+Qed.
+
+(** ---- removing the last member removes the key ---- *)
+Definition cmd (args : list bytes) : list frame := map FBulk args.
+
+Theorem zrem_last_member d key m sc : db_zok d -> zget d key = Some [(m, sc)] ->
+  exists d', h_zrem d (cmd [bs "ZREM"; key; m]) = (r_int 1, d') /\ get_entry d' key = None.
+Proof.
+  intros D G. pose proof (eng_zrem_spec d key m D) as S. rewrite G in S.
+  destruct S as (d' & E & _ & K & _). cbn [zs_lookup zs_remove fst] in E, K. rewrite beq_refl in E, K.
+  cbn [is_none negb] in E. exists d'. split; [|apply K; reflexivity].
+  unfold h_zrem, cmd. cbn [map nparts len length nth_error skipn zrem_members]. rewrite E. reflexivity.
+Qed.
+
+(** ---- ZPOPMIN pops the smallest members, in order ---- *)
+Lemma zs_lookup_notin m (l : list elt) : ~ In m (map fst l) -> zs_lookup m l = None.
+Proof.
+  induction l as [|[k s] l IH]; cbn [map fst In zs_lookup]; intro H; [reflexivity|].
+  assert (beq m k = false) as -> by (apply beq_false_ne; intro; subst; tauto). apply IH. tauto.
+Qed.
+Lemma zs_ok_tail x z : zs_ok (x :: z) -> zs_ok z /\ ~ In (fst x) (map fst z).
+Proof.
+  intros (S & N & F). unfold zs_sorted, zs_members, zs_nonan in *. cbn [map] in N.
+  inversion S; inversion N; inversion F; subst. repeat split; assumption.
+Qed.
+Definition enc_pairs (l : list elt) : list frame := flat_map (fun p => [FBulk (fst p); r_score (snd p)]) l.
+
+Lemma zrange_first x z : zrange_of (z2sl (x :: z)) 0 0 false = [x].
+Proof.
+  rewrite (zrange_fwd_redis (z2sl (x :: z)) 0 0 (z2sl_length _)).
+  - rewrite z2sl_items. unfold redis_slice, redis_range.
+    assert (0 < len (x :: z)) by (unfold len; cbn; lia). brk; try lia.
+    replace (Z.to_nat (Z.min 0 (len (x :: z) - 1) - Z.max 0 0 + 1)) with 1%nat by lia. reflexivity.
+  - unfold kf_zrange_fwd. cbn [z2sl sl_length]. pose proof (len_nonneg (x :: z)). brk; try reflexivity; lia.
+Qed.
+
+Theorem zpopmin_loop_spec key : forall fuel d acc z, db_zok d -> zget d key = Some z ->
+  exists d', zpop_loop fuel d key 0 acc = Some (acc ++ enc_pairs (firstn fuel z), d') /\
+             zget d' key = Some (skipn fuel z) /\ db_zok d'.
+Proof.
+  induction fuel as [|fuel IH]; intros d acc z D G.
+  - exists d. cbn [zpop_loop firstn skipn enc_pairs flat_map]. rewrite app_nil_r. auto.
+  - cbn [zpop_loop]. unfold eng_zrange at 1. rewrite (with_zset_zget d key [] _ z G) by reflexivity.
+    destruct z as [|[m sc] z'].
+    + exists d. cbn. rewrite app_nil_r. auto.
+    + rewrite zrange_first.
+      destruct (zs_ok_tail (m, sc) z' (zget_some d key _ G D)) as [Z' NI]. cbn [fst] in NI.
+      pose proof (eng_zrem_spec d key m D) as S. rewrite G in S. destruct S as (d1 & E & G1 & _ & _ & D1).
+      cbn [zs_lookup zs_remove fst] in E, G1. rewrite beq_refl in E, G1. cbn [is_none negb] in E.
+      rewrite (zs_remove_absent m z' (zs_lookup_notin m z' NI)) in G1.
+      rewrite E. destruct (IH d1 (acc ++ [FBulk m; r_score sc]) z' D1 G1) as (d' & E' & G' & D').
+      exists d'. split; [|split; assumption].
+      rewrite E'. cbn [firstn enc_pairs flat_map fst snd app]. rewrite <- app_assoc. reflexivity.
+Qed.
+
+(** ---- witnesses of the recorded defect classes (the model reproduces the code) ---- *)
+Definition oracle_of (l : list (option Z)) : option frame :=
+  Some (FArray (map (fun o => match o with Some b => FDouble b | None => FNullBulk end) l)).
+Definition one_bits := 4607182418800017408.      (* 1.0 *)
+Definition two_bits := 4611686018427387904.      (* 2.0 *)
+Definition three_bits := 4613937818241073152.    (* 3.0 *)
+Definition kz := bs "z".
+
+(** F-04a: ZADD z nan m is accepted and NaN is stored *)
+Lemma zadd_nan_stored :
+  exists d', exec_zsets 0 empty_db (bs "ZADD") (cmd [bs "ZADD"; kz; bs "nan"; bs "m"])
+               (oracle_of [None; None; Some nan_bits; None]) = Some (r_int 1, d') /\
+             eng_zscore d' kz (bs "m") = Some (Some nan_bits) /\ ~ db_zok d'.
+Proof.
+  eexists. split; [vm_compute; reflexivity|]. split; [vm_compute; reflexivity|].
+  intro D. destruct (D kz {| e_val := VZSet [(bs "m", nan_bits)]; e_exp := None |} [(bs "m", nan_bits)]) as [(_ & _ & F) _];
+    [vm_compute; reflexivity|reflexivity|].
+  inversion F as [|? ? H]. vm_compute in H. discriminate.
+Qed.
+
+(** F-04a: with NaN stored, removing the only member leaves the key in place
+    (ZREM answers 1, the set still has cardinality 1) *)
+Lemma zrem_nan_keeps_key :
+  exists d1 d2, exec_zsets 0 empty_db (bs "ZADD") (cmd [bs "ZADD"; kz; bs "nan"; bs "m"])
+               (oracle_of [None; None; Some nan_bits; None]) = Some (r_int 1, d1) /\
+             exec_zsets 0 d1 (bs "ZREM") (cmd [bs "ZREM"; kz; bs "m"]) None = Some (r_int 1, d2) /\
+             eng_zcard d2 kz = Some 1.
+Proof. do 2 eexists. split; [vm_compute; reflexivity|]. split; vm_compute; reflexivity. Qed.
+
+(** F-04a at the skip-list level: a node whose score is NaN can never be unlinked ... *)
+Lemma remove_nan_noop s k v : f_is_nan v = true -> remove_node_by_score s k v = s.
+Proof.
+  intro H. unfold remove_node_by_score. destruct (nth_error (sl_nodes s) _) as [t|]; [|reflexivity].
+  assert (f_eq (n_val t) v = false) as ->.
+  { unfold f_eq, f_pcmp. rewrite H, Bool.orb_true_r. reflexivity. }
+  rewrite Bool.andb_false_r. reflexivity.
+Qed.
+(** ... so after insert(m, NaN); remove(m) the chain keeps the node, length stays 1, the index is empty *)
+Lemma nan_breaks_inv :
+  let s := snd (sl_remove (snd (sl_insert sl_new (bs "m") nan_bits 0)) (bs "m")) in
+  sl_length s = 1 /\ sl_index s = [] /\ sl_items s = [(bs "m", nan_bits)] /\ ~ Inv s.
+Proof.
+  cbv zeta. split; [vm_compute; reflexivity|]. split; [vm_compute; reflexivity|]. split; [vm_compute; reflexivity|].
+  intro I. pose proof (proj2 (inv_index _ I (bs "m") nan_bits)) as H.
+  assert (In (bs "m", nan_bits) (sl_items (snd (sl_remove (snd (sl_insert sl_new (bs "m") nan_bits 0)) (bs "m"))))) as Hin
+    by (vm_compute; left; reflexivity).
+  apply H in Hin. vm_compute in Hin. discriminate.
+Qed.
+
+Definition z3 : zset := [(bs "a", one_bits); (bs "b", two_bits); (bs "c", three_bits)].
+(** F-04b: ZRANGE z 0 -100 on three members returns the first member (Redis: empty) *)
+Lemma zrange_neg_stop_witness :
+  kf_zrange_fwd 3 0 (-100) = true /\
+  zrange_of (z2sl z3) 0 (-100) false = [(bs "a", one_bits)] /\ redis_slice z3 0 (-100) = [].
+Proof. repeat split; vm_compute; reflexivity. Qed.
+(** F-04b: ZREVRANGE z 5 10 on three members returns one member (Redis: empty) *)
+Lemma zrevrange_beyond_witness :
+  kf_zrange_rev 3 5 10 = true /\
+  zrange_of (z2sl z3) 5 10 true = [(bs "a", one_bits)] /\ redis_slice (rev z3) 5 10 = [].
+Proof. repeat split; vm_compute; reflexivity. Qed.
+
+(** F-04c: a multi-member ZADD whose second pair is bad answers an error but has added the first pair *)
+Lemma zadd_partial_witness :
+  exists r d', exec_zsets 0 empty_db (bs "ZADD") (cmd [bs "ZADD"; kz; bs "1"; bs "a"; bs "x"; bs "b"])
+                 (oracle_of [None; None; Some one_bits; None; None; None]) = Some (r, d') /\
+               is_error r = true /\ d' <> empty_db /\ eng_zscore d' kz (bs "a") = Some (Some one_bits).
+Proof.
+  do 2 eexists. split; [vm_compute; reflexivity|]. split; [reflexivity|]. split; [discriminate|vm_compute; reflexivity].
+Qed.
+
+(** a NaN lower bound is accepted by ZRANGEBYSCORE/ZCOUNT and selects everything up to max
+    (Redis refuses NaN bounds) *)
+Lemma zrangebyscore_nan_bound_witness :
+  sl_range_by_score (z2sl z3) nan_bits two_bits = sl_nodes (z2sl [(bs "a", one_bits); (bs "b", two_bits)]) /\
+  zs_byscore nan_bits two_bits z3 = [].
+Proof. split; vm_compute; reflexivity. Qed.
